@@ -50,6 +50,10 @@ def render(e, style=None, rng=None, prec=0):
         op = style.get("pow", "^")
         return f"{render(e[1], style, rng, 6)}{op}{e[2]}"
     if t == "call":
+        if e[1] == "past_t":       # the second documented notation of a delayed term: x(t-0.25)
+            return f"{e[2][0][1]}(t-{float(F(e[2][1][1]))!r})"
+        if e[1] == "past":
+            return f"past({e[2][0][1]}, {float(F(e[2][1][1]))!r})"
         return f"{e[1]}({', '.join(render(a, style, rng, 0) for a in e[2])})"
     raise ValueError(t)
 
